@@ -84,6 +84,13 @@ impl<'a> UnusedLiteralVisitor<'a> {
         line_position.start_offset = line_start;
         line_position.end_offset = line_end;
         line_position.column = 0;
+        if src[position.end_offset..line_end].ends_with('\n') {
+            // The position now ends at the start of the next line.
+            line_position.end_line_number = position.end_line_number + 1;
+            line_position.end_column = 0;
+        } else {
+            line_position.end_column = position.end_column + (line_end - position.end_offset);
+        }
 
         line_position
     }
